@@ -16,7 +16,7 @@ from ..core import EventLog, RunResult, Violation, call, exc_name, match_known
 PROP = "C02"
 TIERS = {"quick": 20000, "thorough": 1500000}
 WALL_CAP = {"quick": 900, "thorough": 6 * 3600}
-SHRINK_BUDGET = 400
+SHRINK_BUDGET = 250
 
 COMPONENTS = {
     "real": ["biotite.structure.bonds (compiled extension as on disk): BondList, BondType", "numpy", "networkx (as_graph)"],
